@@ -9,7 +9,13 @@ import (
 
 func c14Report(t *testing.T, quick bool) {
 	t0 := time.Now()
-	gs := RunC14Codec(quick)
+	var gs []C14Group
+	for _, f := range []func(bool) C14Group{c14EncodeDecode, c14ReadmeOffsets, c14DecodeEncode, c14TextChunking, c14ResultText} {
+		t1 := time.Now()
+		g := f(quick)
+		fmt.Printf("  group %s took %v\n", g.Name, time.Since(t1))
+		gs = append(gs, g)
+	}
 	fmt.Printf("C14 codec quick=%v took %v\n", quick, time.Since(t0))
 	for _, g := range gs {
 		fmt.Printf("== %s: evaluations=%d distinct=%d violations=%d\n", g.Name, g.Evaluations, g.Distinct, len(g.Violations))
